@@ -7,7 +7,7 @@ cp $wt/demo_$id.py $dst/demo.py
 python3 - "$id" "$name" "$needs" <<'PY'
 import json, sys
 id_, name, needs = sys.argv[1:4]
-json.dump({"property": id_, "name": name, "needs_to_manifest": needs,
+json.dump({"property": id_[:3], "name": name, "needs_to_manifest": needs,
            "confirmed": "demo.py exits 1 with patch.diff applied and 0 without (PYTHONPATH=<worktree> /venv/bin/python demo.py); "
                         "the repository's 243 stable tests still pass with the patch (harness/baseline.py <worktree>)",
            "detected_by": {}}, open("/verif/seeded/%s/meta.json" % name, "w"), indent=1)
